@@ -10,7 +10,9 @@ namespace nmtools::view
     constexpr auto deg2rad(const array_t& a)
     {
         using element_t = meta::get_element_type_t<array_t>;
-        constexpr auto b = pi_v<element_t> / 180;
+        // NOTE: for an integer array the constant must not be computed in the integer type (3/180 == 0)
+        using constant_t = meta::conditional_t<meta::is_floating_point_v<element_t>, element_t, double>;
+        constexpr auto b = pi_v<constant_t> / 180;
         return view::multiply(a,b);
     }
 } // nmtools::view
